@@ -50,3 +50,6 @@
     (let ((e (sslot Mem_Val c (- n 1))))
       (str.++ (symCat Mem_Val c (- n 1))
               (ite ((_ is v_str) e) (str_of e) (ite ((_ is v_int32) e) (runeStr (int32_of e)) ""))))))
+; kind selected by Marshal for a label (stack.go stackByWord; anything else is BASIC)
+(define-fun kindOfLabel ((u String)) (_ BitVec 8)
+  (ite (= u "LIST") #x04 (ite (= u "AND") #x01 (ite (= u "NOT") #x03 (ite (= u "OR") #x02 #x06)))))
